@@ -105,7 +105,10 @@ CHECKS = {
              "The OR inference (check_is_or_operator / infer_or_gate_from_node) is modelled and its decision logic proved "
              "sound over abstract children (or_inference_sound, or_test_spec) and, with a semantics of the miner's trees, for the "
              "executable model on arbitrary subtrees (or_inference_tree_sound) and over the whole recursion "
-             "(or_inference_all_sound, under decidable hypotheses that the check evaluates on every real raw tree); the "
+             "(or_inference_all_sound), and the whole post-processing is proved sound relative to the miner: post_process_sound — "
+             "for every miner tree with distinct names that passes the decidable test wfT, every outcome of OR inference + "
+             "defunct-OR filter + AND recovery (every cover choice) produces every observed set the miner's tree produces "
+             "(the check evaluates the hypotheses on every real raw tree); the "
              "first sentence of the property is also run on observed families that are not the full family of a tree "
              "(seeded random families and parts of the domain's families: three genuine defects found there were "
              "repaired); the domain also runs under unusual event "
